@@ -314,6 +314,10 @@ fn gen_q(rng: &mut Rng) -> Case<Q> {
     let k = match rng.below(8) {
         0 => Q::frac(1, 1i64 << *rng.pick(&[30u32, 40, 53])),
         1 => Q::int(1i64 << *rng.pick(&[20u32, 30])),
+        // an axis that is *almost* unit: |k*axis| = 1 +- 2^-m with 2^-m far below sqrt(epsilon).  A
+        // shortcut that skips the normalisation of an "already unit" axis by tolerance leaves the
+        // rotation non-orthogonal exactly here
+        2 => (Q::ONE + Q::frac(if rng.bool() { 1 } else { -1 }, 1i64 << *rng.pick(&[27u32, 30, 40, 50]))) / len,
         _ => small_q_pos(rng, 7, 5),
     };
     let axis_k = [axis[0] * k, axis[1] * k, axis[2] * k];
@@ -480,7 +484,14 @@ fn gen_float<T: Fl + std::ops::Add<Output = T> + std::ops::Mul<Output = T>>(rng:
     };
     // a quarter of the scale factors are extreme: |k*axis| down to ~1e-14 (f32) / 1e-64 (f64), up to
     // the reciprocal; squares stay far from underflow and overflow
-    let k = if rng.chance(1, 4) {
+    let k = if rng.chance(1, 6) {
+        // almost unit: |k*axis| = 1 +- 10^-u, u in 1.5..9 (for f32 sqrt(eps) = 3.5e-4, for f64 1.5e-8)
+        let l = {
+            let c = [axis[0].to64(), axis[1].to64(), axis[2].to64()];
+            (c[0] * c[0] + c[1] * c[1] + c[2] * c[2]).sqrt()
+        };
+        T::of((1.0 + 10f64.powf(-rng.f64_in(1.5, 9.0)) * if rng.bool() { 1.0 } else { -1.0 }) / l)
+    } else if rng.chance(1, 4) {
         let span = if T::EPS > 1e-10 { 10.0 } else { 60.0 };
         T::of(10f64.powf(rng.f64_in(-span, span)))
     } else {
